@@ -655,8 +655,7 @@ func (e *Env) call(x ECall) Val {
 			e.fail("dom(m,k) needs a Go map")
 		}
 		m := vs[0].G.Underlying().(*types.Map)
-		hv, _, _ := w.mapHeap(m)
-		return boolT(and(not("(= "+vs[0].T+" ref_nil)"), "(select (map_dom (select "+e.g.stateGet(e.st, hv)+" "+vs[0].T+")) "+vs[1].T+")"))
+		return boolT("(select (map_dom " + e.g.mapvalTerm(e.st, vs[0], m) + ") " + vs[1].T + ")")
 	case "min", "max":
 		vs := args()
 		op := "<="
@@ -698,6 +697,13 @@ func (e *Env) call(x ECall) Val {
 		tn := exprString(x.Args[1])
 		s, gt := w.specSort(tn, e.pkg)
 		return Val{T: "(" + w.payFn(s) + " " + v.T + ")", S: s, G: gt}
+	case "str":
+		// str(b): the string with the bytes of the []byte b
+		v := e.tr(x.Args[0])
+		if v.S != "(Slc Int)" {
+			e.fail("str() needs a []byte")
+		}
+		return Val{T: "(" + e.g.strofFn() + " " + v.T + ")", S: "Str", G: types.Typ[types.String]}
 	case "mapval":
 		// mapval(m): the mathematical value (domain, values) of a Go map
 		v := e.tr(x.Args[0])
